@@ -23,3 +23,61 @@ class CorrectExtension:
             if file_name.endswith("." + e):
                 return True
         return False
+
+
+# ------------------------------------------------------------------ parse_from_file: the decoded text and every setting pass through unchanged
+from contracts.lib import opaque  # noqa: E402
+
+
+@contract
+class ParserInitOpaque:
+    """constructing a parser is A-PLY territory: the object remembers what it was built from"""
+    fn = "parser.Parser.__init__"
+    props = []
+    modular = True
+    cases = {"-": {}}
+
+    def build(G, case):
+        return dict(args=[G.parser(), G.str("content")])
+
+    def spec(case, self_, content, silent=True, debug=False, normalize_names=False, log_file=None, log_level=20):
+        self_.built_from = opaque("DDLParser", content, silent, debug, normalize_names, log_file, log_level)
+
+
+@contract
+class RunOpaque:
+    fn = "parser.Parser.run"
+    props = []
+    modular = True
+    cases = {"-": {}}
+
+    def build(G, case):
+        return dict(args=[G.parser()])
+
+    def spec(case, self_, dump=False, dump_path="schemas", file_path=None, output_mode="sql", group_by_type=False, json_dump=False):
+        return opaque("run", self_.built_from, dump, dump_path, file_path, output_mode, group_by_type, json_dump)
+
+
+@contract
+class ParseFromFile:
+    """parse_from_file(path, encoding, parser_settings, **kwargs) == DDLParser(<decoded file content>, **parser_settings).run(file_path=path, **kwargs)"""
+    fn = "ddl_parser.parse_from_file"
+    props = ["C19"]
+    abstract_callees = True
+    cases = {"with settings": dict(settings=True), "without settings": dict(settings=False)}
+
+    def build(G, case):
+        settings = None
+        if case["settings"]:
+            settings = {"silent": G.bool("silent"), "normalize_names": G.bool("normalize_names")}
+        return dict(args=[G.str("path", None, "a.b/my.table.sql")],
+                    kwargs=dict(encoding=G.str("encoding", None, "utf-16"), parser_settings=settings, output_mode=G.str("mode", None, "hql"), group_by_type=G.bool("group"),
+                                dump=G.bool("dump"), dump_path=G.str("dump_path", None, "out")))
+
+    def spec(case, file_path, encoding="utf-8", parser_settings=None, output_mode="sql", group_by_type=False, dump=False, dump_path="schemas"):
+        content = opaque("file-content", file_path, "r", encoding)
+        if case["settings"]:
+            built = opaque("DDLParser", content, parser_settings["silent"], False, parser_settings["normalize_names"], None, 20)
+        else:
+            built = opaque("DDLParser", content, True, False, False, None, 20)
+        return opaque("run", built, dump, dump_path, file_path, output_mode, group_by_type, False)
